@@ -82,6 +82,11 @@ def observe_resolve(prog, call, env):
     return ("handler", r2.kind, r2.value.mid if r2.kind == "ok" and hasattr(r2.value, "mid") else None)
 
 
+def _has_combinators(spec):
+    txt = R.canon(spec["methods"])
+    return any(k in txt for k in ('"union"', '"inter"', '"exactly"', '"strict"', '"hasmethod"'))
+
+
 def run_ovld_case(spec):
     res = R.CaseResult()
     env = H.build(spec["hier"])
@@ -152,11 +157,14 @@ def run_ovld_case(spec):
                     flips += 1
                 last_obs[ck] = (tuple(registered), fresh_cache[key])
                 if got != fresh_cache[key]:
+                    from vlib.outcome import F5_CYCLE
+
+                    cyc = "CycleError" in detail or (got[0] == "other") != (fresh_cache[key][0] == "other")
                     res.fail(
                         f"step {step}: {op} args={call['args']} kw={call['kw']} script={call.get('script')} "
                         f"with survivors {registered}: got {got}, a fresh function gives {fresh_cache[key]} {detail}"
                         f" | history {spec['ops'][:step]}",
-                        None,
+                        F5_CYCLE if cyc and _has_combinators(spec) else None,
                     )
                     break
         res.nontrivial = flips >= 1 and changed_after_use >= 1
